@@ -211,7 +211,10 @@ func runC05(s *kernel.Sim) {
 	// (a quarter of the runs, one or two processors)
 	if tp.Chance(1, 4) {
 		menu := [][2]string{{"url", "a.com/(v1"}, {"url", "["}, {"url", "a.com/c/*"}, {"url", "a.com/c/{id}"}, {"endpoint", "/c/(x"}, {"endpoint", "*"},
-			{"method", "GET"}, {"method", ""}, {"body", "(unclosed"}, {"body", "card"}, {"status_code_range", "200-299"}, {"status_code_range", "500-"}}
+			{"method", "GET"}, {"method", ""}, {"body", "(unclosed"}, {"body", "card"}, {"status_code_range", "200-299"}, {"status_code_range", "500-"},
+			// list- and map-valued parameters whose elements are not all of one kind
+			{"methods", `["GET", 7]`}, {"methods", `[1, "GET"]`}, {"urls", `["a.com/c", 5, 2.5]`}, {"endpoints", `[]`}, {"urls", `[1, 2.5]`},
+			{"headers", `{x-a: "1", x-b: [2]}`}, {"headers", `[x-a, 1]`}}
 		for k := tp.Range(1, 2); k > 0; k-- {
 			i := tp.Choose(len(fd.Procs))
 			if fd.Procs[i].Type != "Filter" {
